@@ -449,6 +449,9 @@ theorem phase_step (s : Sys F) (e : Ev) (j : Nat) (l : FLink F) (hl : s.links[j]
   | failBind c =>
     obtain ⟨l', hl', hs⟩ := (Hk.step_link s (.failBind c)).1 j l hl
     exact ⟨l', hl', hgen l' hl' hs (fun _ _ _ h => by cases h)⟩
+  | syncTimeout =>
+    obtain ⟨l', hl', hs⟩ := (Hk.step_link s (.syncTimeout)).1 j l hl
+    exact ⟨l', hl', hgen l' hl' hs (fun _ _ _ h => by cases h)⟩
   | stamp idx weak ld ccb cct =>
     obtain ⟨l', hl', hs⟩ := (Hk.step_link s (.stamp idx weak ld ccb cct)).1 j l hl
     exact ⟨l', hl', hgen l' hl' hs (fun _ _ _ h => by cases h)⟩
